@@ -441,6 +441,11 @@ def run_check(prop, tier):
         reqs = [{"op": "expr.compwf", "dump": d} for d, _, _, _ in compq]
         for (d, script, a, cx), ans in zip(compq, drv.ask_many(reqs)):
             ktie["n"] += ans.get("comps", 0)
+            if ans.get("problems") and F.width(script) is None:
+                # an ill-sized tree (a raw slice reaching beyond its operand …) is outside the property's
+                # quantifier ("well-sized expression trees"): whatever it turns into is not judged
+                ck.count("ktie.ill-sized-script-not-judged")
+                continue
             if ans.get("problems"):
                 sig = "C12:compwf:%s:%s" % (a[0], shape(script)[:200])
                 ck.report(sig, "comp of a real result violates CompWF: %s (script %s)" % (ans["problems"][0], json.dumps(script)[:300]),
